@@ -1,10 +1,10 @@
 (* C08 -- Potentials and far fields satisfy their PDEs, normalisation and asymptotics (kernel level).
    Only statements; lemmas in theories/Kernels/{C08Lemmas,LaplaceDerivs}.v over kernels regenerated from
    core/numba_kernels.py on every run.  "potential = kernel sum" is C02's theorem. *)
-From Coq Require Import Reals String List.
+From Coq Require Import Reals String List Bool.
 From Coquelicot Require Import Coquelicot.
-From BVgen Require Import NumbaKernels.
-From BV Require Import Kernels.KernelTactics Kernels.C08Lemmas Kernels.LaplaceDerivs.
+From BVgen Require Import NumbaKernels Dispatch.
+From BV Require Import Kernels.KernelTactics Kernels.DispatchModel Kernels.C08Lemmas Kernels.LaplaceDerivs.
 Open Scope R_scope.
 
 (* the potential (= regular) single-layer kernels are u(r)/r with r = |x - y| > 0 ... *)
@@ -76,3 +76,53 @@ Theorem C08_far_field_complex_k_refuted :
             (helmholtz_far_field_single_layer x0 x1 x2 y0 y1 y2 nx0 nx1 nx2 ny0 ny1 ny2 kr ki).
 Proof. exact far_field_complex_k_refuted. Qed.
 Print Assumptions C08_far_field_complex_k_refuted.
+
+(* the far-field double-layer kernel is the derivative of the far-field single-layer kernel along the trial normal *)
+Theorem C08_far_field_dl_is_normal_derivative : forall x0 x1 x2 y0 y1 y2 nx0 nx1 nx2 ny0 ny1 ny2 p0 p1 : R,
+  is_derive (fun t => helmholtz_far_field_single_layer_re x0 x1 x2 (y0 + t * ny0) (y1 + t * ny1) (y2 + t * ny2)
+                        nx0 nx1 nx2 ny0 ny1 ny2 p0 p1) 0
+            (helmholtz_far_field_double_layer_re x0 x1 x2 y0 y1 y2 nx0 nx1 nx2 ny0 ny1 ny2 p0 p1) /\
+  is_derive (fun t => helmholtz_far_field_single_layer_im x0 x1 x2 (y0 + t * ny0) (y1 + t * ny1) (y2 + t * ny2)
+                        nx0 nx1 nx2 ny0 ny1 ny2 p0 p1) 0
+            (helmholtz_far_field_double_layer_im x0 x1 x2 y0 y1 y2 nx0 nx1 nx2 ny0 ny1 ny2 p0 p1).
+Proof. exact far_field_dl_is_normal_derivative. Qed.
+Print Assumptions C08_far_field_dl_is_normal_derivative.
+
+(* far field = lim r exp(-ikr) potential kernel, real k.  _partial: proved as an exact identity for sources on the ray
+   y = s xhat (|xhat| = 1, r > s):  r exp(-ikr) K_sl(r xhat, y) = r/(r-s) K_ff(xhat, y), and r/(r-s) -> 1;
+   sources off the ray, the double layer and the passage to the limit under the quadrature sum are left to the search. *)
+Theorem C08_far_field_is_limit_partial : forall x0 x1 x2 nx0 nx1 nx2 ny0 ny1 ny2 k s r : R,
+  x0 * x0 + x1 * x1 + x2 * x2 = 1 -> s < r ->
+  cmul (r * cos (k * r), - (r * sin (k * r)))
+       (helmholtz_single_layer_regular (r * x0) (r * x1) (r * x2) (s * x0) (s * x1) (s * x2)
+                                       nx0 nx1 nx2 ny0 ny1 ny2 k 0)
+  = (r / (r - s) * helmholtz_far_field_single_layer_re x0 x1 x2 (s * x0) (s * x1) (s * x2) nx0 nx1 nx2 ny0 ny1 ny2 k 0,
+     r / (r - s) * helmholtz_far_field_single_layer_im x0 x1 x2 (s * x0) (s * x1) (s * x2) nx0 nx1 nx2 ny0 ny1 ny2 k 0).
+Proof. exact far_field_on_axis. Qed.
+Print Assumptions C08_far_field_is_limit_partial.
+
+(* the counterpart of the refutation: on a tree whose far-field kernels read the imaginary part of k (flag true; false on
+   the pinned tree, where this statement is vacuous) the translation law must hold for every complex k *)
+Theorem C08_far_field_translation_complex_k_if_supported :
+  far_field_kernels_use_imag = true ->
+  forall x0 x1 x2 y0 y1 y2 t0 t1 t2 nx0 nx1 nx2 ny0 ny1 ny2 kr ki : R,
+  helmholtz_far_field_single_layer x0 x1 x2 (y0 + t0) (y1 + t1) (y2 + t2) nx0 nx1 nx2 ny0 ny1 ny2 kr ki
+    = cmul (cexp_mik kr ki (dot3 x0 x1 x2 t0 t1 t2))
+           (helmholtz_far_field_single_layer x0 x1 x2 y0 y1 y2 nx0 nx1 nx2 ny0 ny1 ny2 kr ki) /\
+  helmholtz_far_field_double_layer x0 x1 x2 (y0 + t0) (y1 + t1) (y2 + t2) nx0 nx1 nx2 ny0 ny1 ny2 kr ki
+    = cmul (cexp_mik kr ki (dot3 x0 x1 x2 t0 t1 t2))
+           (helmholtz_far_field_double_layer x0 x1 x2 y0 y1 y2 nx0 nx1 nx2 ny0 ny1 ny2 kr ki).
+Proof. exact far_field_translation_complex_if_supported. Qed.
+Print Assumptions C08_far_field_translation_complex_k_if_supported.
+
+(* API entry points -> kernels: every scalar potential / far-field factory (8 of them) puts into its descriptor the kernel
+   type <family>_<kind> resp. helmholtz_far_field_<kind>, assembly type default_scalar, options [] / [w] / [re k, im k] and
+   the complex flag of its family; select_numba_kernels(mode="potential") then returns the kernels of the theorems above *)
+Theorem C08_factories_kernel_types :
+  List.Forall (fun f => f_kernel_type f = expected_kernel_type f /\ f_assembly_type f = "default_scalar"%string /\
+                   f_options f = expected_options f /\
+                   f_is_complex f = negb (String.eqb (f_module f) "laplace" || String.eqb (f_module f) "modified_helmholtz"))
+         (List.filter potential_like factories) /\
+  List.length (List.filter potential_like factories) = 8%nat.
+Proof. exact (conj potential_factories_kernel_types potential_factories_count). Qed.
+Print Assumptions C08_factories_kernel_types.
